@@ -18,11 +18,11 @@ namespace Scico.Flax
 
 /-- how the real code rejects (subset of the wire enum) -/
 inductive Err where
-  | value | index | key | notimpl | other
+  | shape | index | key | notimpl | other
 deriving Repr, DecidableEq
 
 def Err.toString : Err → String
-  | .value => "value" | .index => "index" | .key => "key" | .notimpl => "notimpl" | .other => "other"
+  | .shape => "shape" | .index => "index" | .key => "key" | .notimpl => "notimpl" | .other => "other"
 
 /-! ## 1. `FlaxMap.__call__` : axis insertion and removal -/
 
@@ -42,24 +42,29 @@ def squeezeAxes (s : List Nat) (axes : List Nat) : Option (List Nat) :=
 /-- `y.squeeze(axis=None)`: all singleton axes are removed -/
 def squeezeAll (s : List Nat) : List Nat := s.filter (· != 1)
 
-/-- `FlaxMap.__call__` for a plain array (`BlockArray` → `NotImplementedError` is `flaxMapBlock`).
-    `net` is `self.model.apply(self.variables, ·, train=False, mutable=False)`. -/
-def flaxMap {α : Type} (net : Arr α → Arr α) (x : Arr α) : Except Err (Arr α) :=
+/-- first half of `FlaxMap.__call__`: add singleton axes as necessary; returns the array handed to
+    the network and `axsqueeze` -/
+def flaxPre {α : Type} (x : Arr α) : Arr α × Option (List Nat) :=
   let xndim := x.shape.length
-  -- Add singleton to input as necessary
-  let (x', axsqueeze) : Arr α × Option (List Nat) :=
-    if xndim = 2 then (⟨[1] ++ x.shape ++ [1], x.data⟩, some [0, 3])
-    else if xndim = 3 then (⟨[1] ++ x.shape, x.data⟩, some [0])
-    else (x, none)
-  let y := net x'
+  if xndim = 2 then (⟨[1] ++ x.shape ++ [1], x.data⟩, some [0, 3])
+  else if xndim = 3 then (⟨[1] ++ x.shape, x.data⟩, some [0])
+  else (x, none)
+
+/-- second half: `if y.ndim != xndim: return y.squeeze(axis=axsqueeze)`, else `y` -/
+def flaxPost {α : Type} (xndim : Nat) (axsqueeze : Option (List Nat)) (y : Arr α) : Except Err (Arr α) :=
   if y.shape.length ≠ xndim then
     match axsqueeze with
     | none => .ok ⟨squeezeAll y.shape, y.data⟩
     | some axes =>
       match squeezeAxes y.shape axes with
       | some s => .ok ⟨s, y.data⟩
-      | none => .error .value
+      | none => .error .shape
   else .ok y
+
+/-- `FlaxMap.__call__` for a plain array (`BlockArray` → `NotImplementedError` is `flaxMapBlock`).
+    `net` is `self.model.apply(self.variables, ·, train=False, mutable=False)`. -/
+def flaxMap {α : Type} (net : Arr α → Arr α) (x : Arr α) : Except Err (Arr α) :=
+  flaxPost x.shape.length (flaxPre x).2 (net (flaxPre x).1)
 
 /-- a block array argument is rejected before anything else -/
 def flaxMapBlock {α : Type} : Except Err (Arr α) := .error .notimpl
@@ -88,7 +93,7 @@ def specFlaxMap {α : Type} (net : Arr α → Arr α) (x : Arr α) : Except Err 
   let added := addedAxes x.shape.length
   let y := net (canon x)
   if added.all (fun a => y.shape[a]? == some 1) then .ok ⟨removeAxes y.shape added, y.data⟩
-  else .error .value
+  else .error .shape
 
 /-! ## 2. `save_variables` / `load_variables` -/
 
